@@ -101,6 +101,15 @@ CHECKS["C20"] = ("model_checking",
     "deviations (%1.5f, missing closing point, always .txt) must violate in the model. The other plot functions are compared with the model's own pdf / dependence values / per-interval estimates.",
     "TLC; matplotlib Agg backend; recording wrappers on model.marginal_icdf and Axes.contour for the plot functions",
     "DESIGN.md §4 C20")
+CHECKS["C09"] = ("model_checking",
+    "TLC model checks GlobalHierarchicalModel.fit as a state machine over abstract rows (JointFit.tla: all row orders, structures, small value vectors); real model fits observed through recording wrappers are projected to the slicing lattice and judged by TLC (Trace_C09.tla)",
+    "Order invariance and 'each interval gets exactly its own rows' are statements about sets of rows: the model shows the design has them for every permutation (deviation 'masks in sorted space' "
+    "must violate). Ten real structures (2-D/3-D chain and fan, three slicers with option variants, MLE and WLSQ, partial fit descriptions) are fitted to data with tied, rounded conditioning values, "
+    "to the row-permuted data, and re-fitted after another data set; TLC judges IntervalOwnData and KeptExactly with the SlicingOps operators, FitDataAreMaskedRows, EstimateIsStandAloneFit "
+    "(bitwise), DepFitInputsX/Y, OptionsPerDim (call sequence of Distribution.fit), PermutationSameIntervals/Estimates/Dependence, RefitSameIntervals/Estimates.",
+    "TLC; recording wrappers around IntervalSlicer.slice_, Distribution.fit, DependenceFunction.fit (masks bound to the fitted data by FitDataAreMaskedRows); MLE estimates of permuted data "
+    "compared at 2e-3 (Nelder-Mead), least squares at 1e-6; known finding: PointsPerIntervalSlicer with tied conditioning values",
+    "DESIGN.md §4 C09")
 
 NOT_YET = {}
 
